@@ -47,6 +47,22 @@ def _margin_inside(h, p):
 
 def gen_layout(rng, kind):
     """unit-scale layout: boundary points, sensors (>= 4 inside in general position, some outside)"""
+    if kind == "line":
+        # a nearly linear array across a rectangular site (sharp corners of the sensor hull / long unbounded cells):
+        # the closing of unbounded Voronoi cells far outside the site is what this exercises
+        w, h = rng.uniform(0.5, 1.0), rng.uniform(0.3, 1.0)
+        bd = np.array([[-w, -h], [w, -h], [w, h], [-w, h]])
+        n_in = int(rng.integers(4, 7))
+        xs = np.sort(rng.uniform(-0.85 * w, 0.85 * w, n_in))
+        while np.min(np.diff(xs)) < 0.05:
+            xs = np.sort(rng.uniform(-0.85 * w, 0.85 * w, n_in))
+        ys = rng.uniform(-0.04, 0.04, n_in) * h + rng.uniform(-0.3, 0.3) * h
+        ang = rng.uniform(-0.3, 0.3)
+        co = np.c_[xs * np.cos(ang) - ys * np.sin(ang), xs * np.sin(ang) + ys * np.cos(ang)]
+        co = co[np.all(np.abs(co) < np.array([w, h]) * 0.97, axis=1)]
+        if len(co) < 4:
+            return None
+        return dict(kind=kind, coords=co[rng.permutation(len(co))].tolist(), boundary=bd[rng.permutation(4)].tolist())
     for _ in range(200):
         shape = int(rng.integers(0, 3))
         nb = int(rng.integers(3, 10))
@@ -449,8 +465,8 @@ def run(ctx):
                     "contract in exact rational arithmetic (monotone-chain hull, strict containment, half-plane clipping, shoelace)",
                     "numpy Generator.normal: the harness re-draws the same variates from an equally seeded generator",
                     "fractions.Fraction parsing of the driver's exact num/den answers"]
-    ctx.assumptions += ["array extent << 1e6 coordinate units: _bounded_voronoi closes unbounded cells with 'far points' at the "
-                        "hard-coded radius 1e6, so the weights are wrong for extents >~ 3e5 (generated extents are <= 1e4)",
+    ctx.assumptions += ["unbounded cells are closed with far points at 1e6 x the boundary extent (repaired defect C14-a: the radius used to be "
+                        "1e6 coordinate units, wrong for large-coordinate nearly linear arrays); generated extents are <= 1e4",
                         "retained sensors in general position (no three collinear hull sensors, no duplicates): Qhull's joggle/"
                         "precision handling is outside the model"]
     ctx.partial_clauses += [
@@ -468,7 +484,7 @@ def run(ctx):
     # ---------------- layouts
     groups = []
     for i in range(n_layout):
-        kind = "tie" if i % 5 == 4 else "generic"
+        kind = "tie" if i % 5 == 4 else "line" if i % 5 == 2 else "generic"
         base = gen_layout(rng, kind)
         if base is None:
             continue
